@@ -197,8 +197,7 @@ def r4(ctx, prog):
         w = w or cfg.must_pass([q], cfg.exit_points(), rl.call_to("_mi_arena_free")(f))
     ctx.check(R, ok and w is None, f.where(), "metadata/huge commit failure releases the segment memory with _mi_arena_free on every path", key="C07.R4:segment_os_alloc", witness=w)
     for q in fails:
-        rets = [cfg.elem_at(p) for p in cfg.reach([q]) if cfg.elem_at(p) is not None and f.nodes[cfg.elem_at(p)]["k"] == "ReturnStmt"]
-        ctx.check(R, all(f.cv(f.nodes[r].get("val", -1)) == 0 for r in rets), f.where(), "and returns NULL", key="C07.R4:segment_os_alloc:null")
+        ctx.check(R, rl.returns_only(f, q, 0), f.where(), "and returns NULL", key="C07.R4:segment_os_alloc:null")
     g = prog.fn("mi_segments_page_find_and_allocate")
     cfg = g.cfg
     pages = [dd["d"] for _, dd in rl.var_init_from(g, lambda j: rl.is_call(g, j, "mi_segment_span_allocate"))]
@@ -252,10 +251,9 @@ def r5(ctx, prog):
     ok = bool(hit)
     for q in hit:
         w1 = cfg.must_pass([q], cfg.exit_points(), lambda e: rl.is_call(f, e, "_mi_error_message") and f.cv(f.nodes[e]["args"][0]) == enomem)
-        rets = [cfg.elem_at(p) for p in cfg.reach([q]) if cfg.elem_at(p) is not None and f.nodes[cfg.elem_at(p)]["k"] == "ReturnStmt"]
         uses = [cfg.elem_at(p) for p in cfg.reach([q]) if cfg.elem_at(p) is not None and f.nodes[cfg.elem_at(p)]["k"] == "MemberExpr" and f.nodes[cfg.elem_at(p)]["arrow"]
                 and f.is_ref(f.nodes[cfg.elem_at(p)]["c"][0], pd)]
-        ok = ok and w1 is None and all(f.cv(f.nodes[r].get("val", -1)) == 0 for r in rets) and not uses
+        ok = ok and w1 is None and rl.returns_only(f, q, 0) and not uses
     ctx.check(R, ok, f.where(), "second NULL: _mi_error_message(ENOMEM, ..) then return NULL, page is not used", key="C07.R5:enomem")
     ctx.floor(R, 4)
 
